@@ -59,12 +59,12 @@
 (assert (= (vmcard nilVal) 0))
 ; ---- abstract membership umem (30_values.smt2) on the frozen-backed representations -------------------------
 ; GenericSet{set}: membership in the frozen set.  TrueSet: exactly the empty tuple.
-(assert (forall ((v Val) (x Val)) (! (=> (= (tagof v) tag.rel.GenericSet) (= (umem v x) (fmem (pj.rel.GenericSet.0.set_tree_root v) x))) :pattern ((umem v x)))))
-(assert (forall ((v Val) (x Val)) (! (=> (= (tagof v) tag.rel.TrueSet) (= (umem v x) (eq x emptyTupleV))) :pattern ((umem v x)))))
+(assert (! (forall ((v Val) (x Val)) (! (=> (= (tagof v) tag.rel.GenericSet) (= (umem v x) (fmem (pj.rel.GenericSet.0.set_tree_root v) x))) :pattern ((umem v x)))) :named def.umem.w01x1))
+(assert (! (forall ((v Val) (x Val)) (! (=> (= (tagof v) tag.rel.TrueSet) (= (umem v x) (eq x emptyTupleV))) :pattern ((umem v x)))) :named def.umem.w01x2))
 ; scard(v): the number of members of set value v (meaning of Set.Count at interface level)
 (declare-fun scard (Val) Int)
 (assert (forall ((v Val)) (! (>= (scard v) 0) :pattern ((scard v)))))
-(assert (forall ((v Val)) (! (=> (= (tagof v) tag.rel.GenericSet) (= (scard v) (fcard (pj.rel.GenericSet.0.set_tree_root v)))) :pattern ((scard v)))))
+(assert (! (forall ((v Val)) (! (=> (= (tagof v) tag.rel.GenericSet) (= (scard v) (fcard (pj.rel.GenericSet.0.set_tree_root v)))) :pattern ((scard v)))) :named def.scard.w01x1))
 (assert (forall ((v Val)) (! (=> (= (tagof v) tag.rel.EmptySet) (= (scard v) 0)) :pattern ((scard v)))))
 (assert (forall ((v Val)) (! (=> (= (tagof v) tag.rel.TrueSet) (= (scard v) 1)) :pattern ((scard v)))))
 ; ---- C02: extensional meaning of Equal (eq) on the frozen-backed set representations ---------------------------
@@ -82,3 +82,40 @@
 (assert (forall ((v Val) (x Val) (y Val)) (! (=> (and (umem v x) (eq x y)) (umem v y)) :pattern ((umem v x) (eq x y)))))
 ; routing keys of the generic family (bodies: genericType.String(); proved for GenericSet/EmptySet/TrueSet.unionSetSubsetBucket)
 (assert (forall ((v Val)) (! (=> (or (= (tagof v) tag.rel.GenericSet) (= (tagof v) tag.rel.EmptySet) (= (tagof v) tag.rel.TrueSet)) (= (subsetBucket v) genericBkt)) :pattern ((subsetBucket v)))))
+; ---- Dict{m}: entries (@:k, @value:v); the stored value of a key is either one Value or a rel.multipleValues (a
+; frozen.Set[Value] of >= 2 values). Denotation of a Dict value (umem) and its cardinality dcard(root):
+(assert (! (forall ((v Val) (x Val)) (! (=> (= (tagof v) tag.rel.Dict)
+  (= (umem v x) (and (= (tagof x) tag.rel.DictEntryTuple)
+                     (vmhas (pj.rel.Dict.0.m_tree_root v) (pj.rel.DictEntryTuple.0.at x))
+                     (ite (= (tagof (vmget (pj.rel.Dict.0.m_tree_root v) (pj.rel.DictEntryTuple.0.at x))) tag.rel.multipleValues)
+                          (fmem (pj.rel.multipleValues.0.tree_root (vmget (pj.rel.Dict.0.m_tree_root v) (pj.rel.DictEntryTuple.0.at x))) (pj.rel.DictEntryTuple.1.value x))
+                          (eq (vmget (pj.rel.Dict.0.m_tree_root v) (pj.rel.DictEntryTuple.0.at x)) (pj.rel.DictEntryTuple.1.value x))))))
+  :pattern ((umem v x)))) :named def.umem.w01x3))
+; dcard(root) = number of (key, value) pairs = sum over the keys of the number of values stored under the key.
+; Only these consequences are used: it is the number of keys exactly when no key is multi-valued.
+(declare-fun dcard (Val) Int)
+(declare-fun dmulti (Val) Val)         ; witness: a multi-valued key, if there is one
+(assert (! (forall ((r Val)) (! (>= (dcard r) (vmcard r)) :pattern ((dcard r)))) :named def.dcard.w01x1))
+(assert (! (forall ((r Val) (k Val)) (! (=> (and (vmhas r k) (= (tagof (vmget r k)) tag.rel.multipleValues)) (> (dcard r) (vmcard r))) :pattern ((dcard r) (vmhas r k)))) :named def.dcard.w01x2))
+(assert (! (forall ((r Val)) (! (=> (not (and (vmhas r (dmulti r)) (= (tagof (vmget r (dmulti r))) tag.rel.multipleValues))) (= (dcard r) (vmcard r))) :pattern ((dcard r)))) :named def.dcard.w01x3))
+(assert (! (forall ((v Val)) (! (=> (= (tagof v) tag.rel.Dict) (= (scard v) (dcard (pj.rel.Dict.0.m_tree_root v)))) :pattern ((scard v)))) :named def.scard.w01x2))
+; istrue (Value.IsTrue) on the frozen-backed set representations (bodies: Count() > 0 / !m.IsEmpty(); GenericSet.IsTrue is proved against it)
+(assert (forall ((v Val)) (! (=> (= (tagof v) tag.rel.GenericSet) (= (istrue v) (> (fcard (pj.rel.GenericSet.0.set_tree_root v)) 0))) :pattern ((istrue v)))))
+(assert (forall ((v Val)) (! (=> (= (tagof v) tag.rel.UnionSet) (= (istrue v) (> (smcard (pj.rel.UnionSet.0.m_tree_root v)) 0))) :pattern ((istrue v)))))
+; ---- routing keys of the sugar families (bodies: getBucket returns stringCharTupleType / arrayItemTupleType /
+; bytesByteTupleType / dictEntryTupleType; String/Array/Bytes/Dict.unionSetSubsetBucket return that type's String()).
+; ASSUMED here (reflect.Type names of distinct types are distinct); lets callers establish routed(..)/validSet2 for
+; canonical String / Array / Bytes values.
+(declare-fun strBkt () Str)
+(declare-fun arrBkt () Str)
+(declare-fun bytesBkt () Str)
+(declare-fun dictBkt () Str)
+(assert (distinct genericBkt strBkt arrBkt bytesBkt dictBkt))
+(assert (forall ((x Val)) (! (=> (= (tagof x) tag.rel.StringCharTuple) (= (bucketOf x) strBkt)) :pattern ((bucketOf x)))))
+(assert (forall ((x Val)) (! (=> (= (tagof x) tag.rel.ArrayItemTuple) (= (bucketOf x) arrBkt)) :pattern ((bucketOf x)))))
+(assert (forall ((x Val)) (! (=> (= (tagof x) tag.rel.BytesByteTuple) (= (bucketOf x) bytesBkt)) :pattern ((bucketOf x)))))
+(assert (forall ((x Val)) (! (=> (= (tagof x) tag.rel.DictEntryTuple) (= (bucketOf x) dictBkt)) :pattern ((bucketOf x)))))
+(assert (forall ((v Val)) (! (=> (= (tagof v) tag.rel.String) (= (subsetBucket v) strBkt)) :pattern ((subsetBucket v)))))
+(assert (forall ((v Val)) (! (=> (= (tagof v) tag.rel.Array) (= (subsetBucket v) arrBkt)) :pattern ((subsetBucket v)))))
+(assert (forall ((v Val)) (! (=> (= (tagof v) tag.rel.Bytes) (= (subsetBucket v) bytesBkt)) :pattern ((subsetBucket v)))))
+(assert (forall ((v Val)) (! (=> (= (tagof v) tag.rel.Dict) (= (subsetBucket v) dictBkt)) :pattern ((subsetBucket v)))))
